@@ -363,6 +363,18 @@ func (c *Contract) target() string {
 	return c.Func
 }
 
+// sweepOnly: the contract only carries clauses of the error-propagation /
+// map-iteration families; it is neither verified by execution nor applied at
+// call sites.
+func (c *Contract) sweepOnly() bool {
+	for _, cl := range c.Clauses {
+		if cl.Kind != "errdrop" && cl.Kind != "maprange" && cl.Kind != "props" {
+			return false
+		}
+	}
+	return true
+}
+
 func (c *Contract) clauses(kind string) []*Clause {
 	var out []*Clause
 	for _, cl := range c.Clauses {
@@ -395,7 +407,7 @@ type Specs struct {
 
 func (s *Specs) contractFor(pkgPath, fn string) *Contract {
 	for _, c := range s.Contracts {
-		if strings.HasSuffix(pkgPath, c.Pkg) && c.target() == fn {
+		if strings.HasSuffix(pkgPath, c.Pkg) && c.target() == fn && !c.sweepOnly() {
 			return c
 		}
 	}
